@@ -368,3 +368,122 @@ M("M61", "get_line_ending_from_buf: look at buf[1] when len == 1",
             if buf[0] == b'\\n' {""", """        1 => {
             if buf[1] == b'\\n' {""")],
   {"C18": ["R18.1"]})
+
+# ------------------------------------------------------------------ C02 / C03 / C05
+M("M04", "reschedule the depender also when add_dependency is true (runs before its dependencies finish)",
+  [(EX, """                                for dep in deps {
+                                    self.execute_file(dep, true)?;
+                                }""", """                                for dep in deps {
+                                    self.execute_file(dep, true)?;
+                                }
+                                self.execute_file(input, false)?;""")],
+  {"C02": ["R02.1"]})
+M("M05", "collect-deps gate: drop the final 'already collecting -> None' (commands after a dependency run early)",
+  [(PP, """        if let PpMode::CollectDeps(_) = self.pp_mode {
+            return Ok(None);
+        }
+        Ok(Some(d))""", """        Ok(Some(d))""")],
+  {"C02": ["R02.2"]})
+M("M05b", "include of a .txtpp-backed file is executed right away when found in the first pass",
+  [(PP, """                    PpMode::FirstPassExecute => {
+                        self.pp_mode = PpMode::CollectDeps(vec![p_abs]);
+                    }
+                    _ => unreachable!(),
+                }
+                return Ok(None);""", """                    PpMode::FirstPassExecute => {
+                        self.pp_mode = PpMode::CollectDeps(vec![p_abs]);
+                        return Ok(Some(d));
+                    }
+                    _ => unreachable!(),
+                }
+                return Ok(None);""")],
+  {"C02": ["R02.2"]})
+M("M06", "build PpResult::Ok first, then let _ = self.context.done()",
+  [(PP, """        self.context.done()?;
+
+        Ok(PpResult::Ok(self.input_file))""", """        let r = Ok(PpResult::Ok(self.input_file));
+        let _ = self.context.done();
+        r""")],
+  {"C02": ["R02.5"], "C04": ["R04.1"]})
+M("M06b", "run directive executed before the collect-deps gate",
+  [(PP, """        let d = match self.execute_in_collect_deps_mode(d)? {
+            Some(d) => d,
+            None => return Ok(None),
+        };
+""", """        if let DirectiveType::Run = d.directive_type {
+            let command = d.args.join(" ");
+            let _ = self.shell.run(&command, &self.context.work_dir, &self.context.input_path);
+        }
+        let d = match self.execute_in_collect_deps_mode(d)? {
+            Some(d) => d,
+            None => return Ok(None),
+        };
+""")],
+  {"C02": ["R02.3"]})
+M("M06c", "lines are written to the output even while collecting dependencies",
+  [(PP, """            if self.pp_mode.is_execute() {
+                if let Some(x) = to_write {""", """            if self.pp_mode.is_execute() || has_tail {
+                if let Some(x) = to_write {""")],
+  {"C02": ["R02.4"]})
+M("M06d", "worker shares the dedup set through an Arc<Mutex<..>> upvar",
+  [(EX, """        let send = self.send.clone();
+        let shell = self.shell.clone();""", """        let send = self.send.clone();
+        let shared = std::sync::Arc::new(std::sync::Mutex::new(self.files.clone()));
+        let shell = self.shell.clone();"""),
+   (EX, """            let result = preprocess(&shell, &file, mode, is_first_pass, trailing_newline);""", """            let _n = shared.lock().map(|s| s.len()).unwrap_or(0);
+            let result = preprocess(&shell, &file, mode, is_first_pass, trailing_newline);""")],
+  {"C02": ["R02.6"]})
+M("M07", "drop the files.insert first-pass dedup",
+  [(EX, """            if !self.files.insert(file.clone()) {
+                return Ok(());
+            }""", """            let _ = self.files.insert(file.clone());""")],
+  {"C03": ["R03.5"]})
+M("M08", "share_base skips make_abs for absolute paths (no canonicalisation: two identities for one file)",
+  [(AP, """        Ok(Self {
+            b: self.b.clone(),
+            p: Self::make_abs(p)?,
+        })""", """        Ok(Self {
+            b: self.b.clone(),
+            p: if p.is_absolute() && p.exists() { p } else { Self::make_abs(p)? },
+        })""")],
+  {"C03": ["R03.6"]})
+M("M09", "worker closure logs an Err result instead of sending it",
+  [(EX, """            let result = preprocess(&shell, &file, mode, is_first_pass, trailing_newline);
+            send.send(TaskResult::Preprocess(result))
+                .expect("cannot send result")""", """            let result = preprocess(&shell, &file, mode, is_first_pass, trailing_newline);
+            if result.is_err() {
+                log::error!("preprocess failed");
+                return;
+            }
+            send.send(TaskResult::Preprocess(result))
+                .expect("cannot send result")""")],
+  {"C03": ["R03.1"], "C18": ["R18.3"]})
+M("M09b", "execute_file returns early for already-clean targets after counting the task",
+  [(EX, """        let send = self.send.clone();
+        let shell = self.shell.clone();""", """        if file_target.is_empty() {
+            return Ok(());
+        }
+        let send = self.send.clone();
+        let shell = self.shell.clone();""")],
+  {"C03": ["R03.2"]})
+M("M09c", "coordinator leaves the loop as soon as the channel is empty once",
+  [(EX, """                    if self.progress.is_done() {
+                        break;
+                    }""", """                    if self.progress.is_done() || file_count > 0 {
+                        break;
+                    }""")],
+  {"C03": ["R03.4"]})
+M("M09d", "AbsPath equality also compares the base",
+  [(AP, """    #[derivative(PartialEq = "ignore", Hash = "ignore")]
+    b: PathBuf,""", """    #[derivative(Hash = "ignore")]
+    b: PathBuf,""")],
+  {"C03": ["R03.6"]})
+M("M16", "drop the leftover-graph (cycle) check",
+  [(EX, """        if !remaining.is_empty() {
+            return Err(Report::new(TxtppError)
+                .attach_printable("Circular dependencies are found:")
+                .attach_printable(print_dep_map(&remaining)));
+        }""", """        if !remaining.is_empty() {
+            log::warn!("Circular dependencies are found: {}", print_dep_map(&remaining));
+        }""")],
+  {"C05": ["R05.1"]})
